@@ -139,6 +139,8 @@ func Eval(c Case) evid.Verdict {
 			}
 		case "padata", "padata-order":
 			return evalPAData(c)
+		case "padata-client":
+			return evalPAClient(c)
 		case "genkey":
 			return evalGenKey(c)
 		default:
@@ -532,7 +534,7 @@ func drawIter(t *rapid.T) uint32 {
 
 func TestProp(t *testing.T) {
 	r := evid.Start(t, "C08", "exploration")
-	for _, k := range []string{"s2k", "nfold", "derive", "rtk", "padata", "padata-order", "genkey", "enum"} {
+	for _, k := range []string{"s2k", "nfold", "derive", "rtk", "padata", "padata-order", "padata-client", "genkey", "enum"} {
 		evid.Reg(r, k, Eval)
 	}
 	if r.Replay() {
@@ -817,6 +819,14 @@ func TestProp(t *testing.T) {
 			c.Hints = append(c.Hints, Hint{Type: 3, Salt: hex.EncodeToString([]byte("SALT3-" + lbl))})
 		}
 		judge("padata", c, "padata-order|"+lbl, nil, fmt.Sprintf("hints%d", len(c.Hints)), fmt.Sprintf("etype%d", j.req), "elements-naming-different-etypes")
+	})
+	r.Rule("padata-client (enumerated): the precedence on the client's route: Client.Login over loopback against a simulated KDC that asks for pre-authentication with PA-ETYPE-INFO2 alone, or with a PA-ETYPE-INFO naming another etype and salt behind / in front of it, for every etype, default and non-default salt and iteration count: the login succeeds only if the encrypted timestamp was made from the PA-ETYPE-INFO2")
+	pcs := paClientCases(r.Seed(), r.Thorough())
+	evid.Parallel(len(pcs), 16, func(i int) {
+		c := pcs[i]
+		r.Count(fmt.Sprintf("padata-client|%d|%s|%d", c.EType, c.Params, c.N), "kind:padata-client", fmt.Sprintf("etype%d", c.EType), "legacy-info:"+c.Params)
+		r.Sample("padata-client/"+c.Params, c)
+		r.Violation("padata", c, Eval(c))
 	})
 	r.Rule("genkey: GenerateEncryptionKey, GenerateSeqNumberAndSubKey(GetKeyByteSize), the session key of messages.NewTicket and the subkey of kadmin.ChangePasswdMsg for every etype: RFC key length, usable for encrypt/decrypt/checksum, decryptable by the reference")
 	for _, et := range ref.ETypes {
